@@ -118,7 +118,8 @@ def judge (toks : List String) (out : List String) : String :=
         if good && (match a with
             | .union alts => n != (match alts.filter (fun x => x.id ≠ 0) with | [x] => x | o => .union o)
             | _ => false) then "bad nonnullable-wrong-alternatives"
-        else if good && (raS ≠ "2" ∨ rbS ≠ "2") then
+        -- upper bound: demanded for ALL types (theorem `sum_upper_partial` needs no well-formedness)
+        else if raS ≠ "2" ∨ rbS ≠ "2" then
           if !shapeOk a b then "known typesum-shape-mismatch sum-not-upper-bound"
           else "bad sum-not-upper-bound"
         else if good && eqSS ≠ "1" then
